@@ -58,6 +58,7 @@ type vfWConfig struct {
 		N      int `json:"n"`      // captured priorities
 	} `json:"prio"`
 	Timeouts bool `json:"timeouts"` // observe handshake / idle cuts
+	CertSpelling string `json:"cert_spelling"` // how the operator wrote the two paths: "" canonical | "dot" (dir/./tls.crt) | "dslash" (dir//tls.crt) | "rel" (relative, ./ in front)
 	Certs    bool `json:"certs"`    // rotate the key pair on disk and look at what handshakes of several kinds are shown (C14)
 	ViaEnv   bool `json:"via_env"`  // every setting through its environment variable ($FORWARD_URL, $ENABLE_KUBERNETES_PROBE, ...) instead of the command line
 }
@@ -140,7 +141,20 @@ func vfWRun(t *testing.T, c vfWConfig) vfWOut {
 	// exactly what Run() does, with a fresh flag set / registry per configuration and an ephemeral port
 	flag.CommandLine = flag.NewFlagSet("fingerproxy", flag.ContinueOnError)
 	PrometheusRegistry = prometheus.NewRegistry()
-	args := append([]string{"-cert-filename=" + crt, "-certkey-filename=" + key, "-forward-url=" + bs.URL + c.FwdPath}, c.Args...)
+	crtArg, keyArg := crt, key
+	switch c.CertSpelling {
+	case "dot":
+		crtArg, keyArg = dir+"/./tls.crt", dir+"/./tls.key"
+	case "dslash":
+		crtArg, keyArg = dir+"//tls.crt", filepath.Dir(dir)+"/"+filepath.Base(dir)+"//tls.key"
+	case "rel":
+		if wd, err := os.Getwd(); err == nil {
+			if rel, err := filepath.Rel(wd, dir); err == nil {
+				crtArg, keyArg = "./"+rel+"/tls.crt", "./"+rel+"/../"+filepath.Base(dir)+"/tls.key"
+			}
+		}
+	}
+	args := append([]string{"-cert-filename=" + crtArg, "-certkey-filename=" + keyArg, "-forward-url=" + bs.URL + c.FwdPath}, c.Args...)
 	if c.ViaEnv {
 		// the defaults of the flags are read from the environment when the flags are declared
 		for _, a := range args {
